@@ -1786,7 +1786,7 @@ class C17(Prop):
     id = "C17"
     title = "One cursor: every reading method consumes the stream strictly line by line"
     rule = ("files (valid, with errors, with invalid UTF-8 lines) x random histories of reader operations of length <= 12 (quick) / "
-            "<= 40 (thorough) over {read_line_raw, read_line, k calls on a fresh lines(), k calls on a fresh sections()}; judge = a "
+            "<= 40 (thorough) over {read_line_raw, read_line, k calls on a fresh lines(), k calls on a fresh sections()}, 20% with the stream handed to a new Reader (into_inner + Reader::new) between two operations; judge = a "
             "single cursor over the list of lines (from one `lines()` pass over the same bytes): every operation must observe "
             "exactly the next lines, in order, and a yielded section must end the consumption at its terminating line; "
             "5% of the files carry a line of 64 KiB or more (a header with a huge contig name, or junk); non-trivial = the history mixes >= 3 kinds of operation and yields a section; distinct by (file, history)")
@@ -1829,6 +1829,9 @@ class C17(Prop):
                     ops.append("lines%d" % rng.randint(0, 4))
                 else:
                     ops.append("secs%d" % rng.randint(1, 3))
+            if rng.random() < 0.2:
+                # hand the stream to a new Reader between two operations (into_inner + Reader::new): no line is lost or skipped
+                ops.insert(rng.randint(1, len(ops)), "reopen")
             yield {"kind": "ops", "lines": [l.hex() for l in raw], "ops": ops, "eol": rng.choice(["\n", "\r\n"]),
                    "final_newline": rng.random() < 0.6}
 
@@ -1871,7 +1874,9 @@ class C17(Prop):
         cur = 0
         kinds = set()
         yielded = False
-        for op, obs in zip(case["ops"], i.split(" ; ")):
+        if "reopen" in case["ops"]:
+            ev.tags.append("op:reopen")
+        for op, obs in zip([o for o in case["ops"] if o != "reopen"], i.split(" ; ")):
             if op == "raw":
                 kinds.add("raw")
                 want = rawl[cur] if cur < len(rawl) else "eof"
